@@ -36,6 +36,7 @@ def run(idx, rep, tier):
     c08.serial(idx, rep, "R1", aspects=("protocol", "outcome", "save-once", "handler-wiring"))
     c08.byline(idx, rep, "R1", "R1", tier, scenarios=("abort", "skipall"), aspects=("schedule", "outcome"))
     r2(idx, rep)
+    abort_marker(idx, rep)
     r3(idx, rep)
     c10.run_state(idx, rep, "R4")
     r5(idx, rep)
@@ -69,6 +70,31 @@ def r2(idx, rep):
     # member manifests: completed comes from the csvpath, not a constant
     fr, ok, d = K.returns(idx, "ResultRegistrar", "completed", "self.result.csvpath.completed")
     rep.check(ok, "R2", f"{fr.file}::ResultRegistrar.completed source", d, K.where(fr, fr.node))
+
+
+def abort_marker(idx, rep):
+    """an abort on the scan's last line: `completed` is position-based; is there anything that records the abort?"""
+    fr, ps = K.sym_result(idx, "ResultRegistrar", "completed")
+    only_csvpath = len(ps) == 1 and isinstance(ps[0].result[1], Residual) and ps[0].result[1].text == "self.result.csvpath.completed"
+    fc = idx.method("CsvPath", "completed")
+    it = Interp(idx, types={"self": "CsvPath"}, unknown_calls="residual")
+    rows = it.run_eager(fc, {"self.scanner": [Obj("sc")], "self.line_monitor": [Obj("lm")], "self.scanner.is_last(self.line_monitor.physical_line_number)": [True, False],
+                             "self.stopped": [True, False], "self._errors": [[], ["E"]]})
+    position_only = all(p.result == ("return", p.cfg["self.scanner.is_last(self.line_monitor.physical_line_number)"]) for p in rows)
+    # does any aborting path of the run methods store a marker on the member before saving it?
+    marker = False
+    for m in ("collect_paths", "fast_forward_paths", "next_paths"):
+        fi, paths = RM.serial_rows(idx, m)
+        for p in paths:
+            if p.result[0] != "raise":
+                continue
+            for k, kk, v in p.trace:
+                if k == "set" and (kk.startswith("cp") or kk.startswith("res")) and any(w in kk for w in ("abort", "complete", "fail", "error")):
+                    marker = True
+    ok = not (only_csvpath and position_only and not marker)
+    rep.check(ok, "R2", f"{fr.file}::ResultRegistrar.completed abort on the scan's last line",
+              "`completed` in the member manifest is csvpath.completed, which is true whenever the current line is the scan's last line; nothing records that the run was cut short, so a member "
+              "aborted by an exception on its last scanned line is archived with completed: true", K.where(fr, fr.node))
 
 
 MUTATORS = {"add_named_file", "add_named_files_from_dir", "set_named_files", "set_named_files_from_json", "remove_named_file",
